@@ -93,13 +93,29 @@ func loadCuts() ([]Cut, error) {
 		return nil, err
 	}
 	var cs struct {
-		Cuts []Cut `json:"cuts"`
+		Cuts      []Cut      `json:"cuts"`
+		CallSites []CallSite `json:"callsites"`
 	}
 	if err := json.Unmarshal(b, &cs); err != nil {
 		return nil, fmt.Errorf("cuts.json: %v", err)
 	}
+	callSites = cs.CallSites
 	return cs.Cuts, nil
 }
+
+// CallSite: a call of a dependency function inside a /repo file that harnesses observe or replace. In the overlay copy
+// generated from the current source the text From is replaced by To (a wrapper declared in the harness overlay that
+// delegates to the real function unless the harness activates a cut). From must occur exactly Count times - a source
+// that changed shape makes the load fail (INCONCLUSIVE) instead of leaving a call unobserved.
+type CallSite struct {
+	Pkg   string `json:"pkg"`
+	File  string `json:"file"`
+	From  string `json:"from"`
+	To    string `json:"to"`
+	Count int    `json:"count"`
+}
+
+var callSites []CallSite
 
 // cutOverlays returns, per source file path under /repo, the rewritten content (real declarations renamed).
 func cutOverlays() (map[string][]byte, error) {
@@ -134,6 +150,20 @@ func cutOverlays() (map[string][]byte, error) {
 		}
 		src = append(append(append([]byte{}, src[:loc[0]]...), []byte(renamed)...), src[loc[1]:]...)
 		out[path] = src
+	}
+	for _, c := range callSites {
+		path := filepath.Join(repoRoot, c.Pkg, c.File)
+		src, ok := out[path]
+		if !ok {
+			src, err = os.ReadFile(path)
+			if err != nil {
+				return nil, fmt.Errorf("call site %s in %s: %v", c.From, path, err)
+			}
+		}
+		if n := strings.Count(string(src), c.From); n != c.Count {
+			return nil, fmt.Errorf("call site %q occurs %d time(s) in %s, expected %d (the source changed shape)", c.From, n, path, c.Count)
+		}
+		out[path] = []byte(strings.ReplaceAll(string(src), c.From, c.To))
 	}
 	return out, nil
 }
